@@ -167,7 +167,7 @@ pub fn run(cfg: &Config) -> i32 {
     let started = Instant::now();
     require_binaries(cfg);
     let tmp = scratch_dir(cfg, "c08");
-    let cases = cfg.scaled(cfg.pick(6000, 1_000_000));
+    let cases = cfg.scaled(cfg.pick(12_000, 1_000_000));
     let budget = Duration::from_secs_f64(cfg.pick(50.0, 540.0) * cfg.scale);
     let stats = parallel(cfg, "main", cases, budget, |idx, r, st| case(cfg, &tmp, idx, r, st));
     let _ = std::fs::remove_dir_all(&tmp);
